@@ -364,6 +364,26 @@ agr%(u)s(n: SI): SI == {
     return d, [], "agr%s(%d)" % (u, max(2, min(n, 3000)))
 
 
+def b_bigarray(u, rng, n):
+    """Arrays of big integers: the elements are separately allocated objects referenced only
+    through the array (FOAM `ANew BInt`)."""
+    d = '''
+bga%(u)s(n: SI): Integer == {
+	import from Array Integer, PrimitiveArray Integer;
+	a: Array Integer := new(n, 0);
+	p: PrimitiveArray Integer := new(n, 0);
+	big: Integer := 2^%(e)d;
+	for i: SI in 1..n repeat { a.i := big * (i::Integer) + 7; p.i := big + (i::Integer) * (i::Integer) }
+	l: List SI := nil;
+	for i: SI in 1..%(churn)d repeat l := cons(i, l);
+	s: Integer := 0;
+	for i: SI in 1..n repeat s := s + a.i + p.i;
+	s + (#l)::Integer
+}
+''' % dict(u=u, e=rng.choice([61, 62, 63, 64, 70, 200]), churn=rng.choice([2000, 20000, 100000]))
+    return d, [], "bga%s(%d)" % (u, max(2, min(n, 500)))
+
+
 def b_dyndom(u, rng, n):
     """Domains created at run time (List T for growing T): the runtime's lazy domain
     objects and its caches allocate and are kept alive across collections."""
@@ -460,7 +480,7 @@ BLOCKS = [("list", b_list, 4), ("record", b_record, 4), ("node", b_node, 2), ("c
           ("array", b_array, 3), ("domain", b_domain, 1),
           ("exn", b_exn, 2), ("union", b_union, 2), ("float", b_float, 1), ("tokens", b_tokens, 1),
           ("deeprec", b_deeprec, 2), ("ptrarray", b_ptrarray, 2), ("dyndom", b_dyndom, 2),
-          ("strops", b_strops, 2), ("arrgrow", b_arrgrow, 2),
+          ("strops", b_strops, 2), ("arrgrow", b_arrgrow, 2), ("bigarray", b_bigarray, 3),
           ("frag", b_frag, 0), ("chain", b_chain, 0)]	# weight 0: only when forced (expensive)
 
 
